@@ -2,6 +2,8 @@ import MuduoVerif.Proofs.Calendar
 import MuduoVerif.Proofs.Zone
 import MuduoVerif.Proofs.Inet
 import MuduoVerif.Proofs.SysSkelTie
+import MuduoVerif.Proofs.TzFile
+import MuduoVerif.Proofs.TzFileSkelTie
 /-!
 # C20 — calendar, time-zone and address conversions round-trip and agree with their specification
 
@@ -301,6 +303,133 @@ theorem be_roundtrip (x : Nat) :
 
 /-- non-vacuity of the calendar hypotheses: a leap day in range -/
 example : validDate 2024 2 29 ∧ inRange 2024 2 ∧ jdnMin ≤ 2460370 ∧ tMin ≤ 0 := by decide
+
+
+/-! ## the zone-file reader (`detail::File`, `readDataBlock`, `readTimeZoneFile`, `loadZoneFile`)
+
+`TzFile.parse` is the reader of muduo over the bytes of a file, with every width, signedness, length, test and skip
+taken from the source (`Generated/TzFileSkel.lean`); `TzFile.serialize` is the reference encoder of RFC 8536, written
+independently of it.  The table `parse` produces is the `Zone.Data` all theorems above are about (`TzFile.loadZone`). -/
+
+/-- **T1**: every parameter of the reader (readers: bytes, byte swap, return type = sign or zero extension; lengths,
+magic, version test; reader / type / order of the counters; block size and skips; reader of a transition time; types on
+the way into the table) and the statement skeleton of every function of the reader are, in /repo's source as it is
+now, what `Model/TzFile.lean` was written for. -/
+theorem tzfile_reader_tied :
+    Gen.TzFileSkel.readInt32 = TzFileSkel.Decl.readInt32 ∧ Gen.TzFileSkel.readInt64 = TzFileSkel.Decl.readInt64 ∧
+    Gen.TzFileSkel.readUInt8 = TzFileSkel.Decl.readUInt8 ∧
+    Gen.TzFileSkel.timeReader = TzFileSkel.Decl.timeReader ∧ Gen.TzFileSkel.timeElemTy = TzFileSkel.Decl.timeElemTy ∧
+    Gen.TzFileSkel.headerCounts = TzFileSkel.Decl.headerCounts ∧ Gen.TzFileSkel.blockCounts = TzFileSkel.Decl.blockCounts ∧
+    Gen.TzFileSkel.v1BlockSkip = TzFileSkel.Decl.v1BlockSkip ∧ Gen.TzFileSkel.blockSkips = TzFileSkel.Decl.blockSkips ∧
+    Gen.TzFileSkel.ttinfoReaders = TzFileSkel.Decl.ttinfoReaders ∧ Gen.TzFileSkel.ttinfo = TzFileSkel.Decl.ttinfo ∧
+    Gen.TzFileSkel.fileReadInt32 = TzFileSkel.Decl.fileReadInt32 ∧ Gen.TzFileSkel.fileReadInt64 = TzFileSkel.Decl.fileReadInt64 ∧
+    Gen.TzFileSkel.fileReadUInt8 = TzFileSkel.Decl.fileReadUInt8 ∧ Gen.TzFileSkel.fileReadBytes = TzFileSkel.Decl.fileReadBytes ∧
+    Gen.TzFileSkel.fileSkip = TzFileSkel.Decl.fileSkip ∧
+    Gen.TzFileSkel.readDataBlock = TzFileSkel.Decl.readDataBlock ∧
+    Gen.TzFileSkel.readTimeZoneFile = TzFileSkel.Decl.readTimeZoneFile ∧
+    Gen.TzFileSkel.addLocalTime = TzFileSkel.Decl.addLocalTime ∧ Gen.TzFileSkel.addTransition = TzFileSkel.Decl.addTransition ∧
+    Gen.TzFileSkel.transitionCtor = TzFileSkel.Decl.transitionCtor ∧ Gen.TzFileSkel.localTimeCtor = TzFileSkel.Decl.localTimeCtor ∧
+    Gen.TzFileSkel.loadZoneFile = TzFileSkel.Decl.loadZoneFile :=
+  ⟨TzFileSkel.param_readInt32, TzFileSkel.param_readInt64, TzFileSkel.param_readUInt8, TzFileSkel.param_timeReader,
+   TzFileSkel.param_timeElemTy, TzFileSkel.param_headerCounts, TzFileSkel.param_blockCounts, TzFileSkel.param_v1BlockSkip,
+   TzFileSkel.param_blockSkips, TzFileSkel.param_ttinfoReaders, TzFileSkel.param_ttinfo, TzFileSkel.skeleton_fileReadInt32,
+   TzFileSkel.skeleton_fileReadInt64, TzFileSkel.skeleton_fileReadUInt8, TzFileSkel.skeleton_fileReadBytes,
+   TzFileSkel.skeleton_fileSkip, TzFileSkel.skeleton_readDataBlock, TzFileSkel.skeleton_readTimeZoneFile,
+   TzFileSkel.skeleton_addLocalTime, TzFileSkel.skeleton_addTransition, TzFileSkel.skeleton_transitionCtor,
+   TzFileSkel.skeleton_localTimeCtor, TzFileSkel.skeleton_loadZoneFile⟩
+
+/-- **the reader inverts the encoder**: for every well-formed zone description `z` - any number of transitions and
+types, transition times anywhere in the signed 32-bit range (first block) / signed 64-bit range (second block), with
+or without the second block, any version byte, any indicator bytes and footer - reading the RFC 8536 encoding of `z`
+succeeds and yields exactly the table of the block muduo takes (`z.selected`: the 64-bit block when the version byte
+is `'2'`, else the 32-bit one), its designations, and - with the 64-bit block - the footer. -/
+theorem tzfile_roundtrip (z : TzFile.ZoneDesc) (h : z.WF) :
+    TzFile.parse (TzFile.serialize z) = .ok
+      { data := z.selected.table, abbreviation := z.selected.chars, tzstring := z.footerRead,
+        consumed := z.needed.length } ∧
+    TzFile.loadZone (TzFile.serialize z) = some z.selected.table := by
+  have := TzFile.parse_serialize z h
+  exact ⟨this, by simp [TzFile.loadZone, this]⟩
+
+/-- **sign extension**: a transition time whose first byte has the top bit set is read as the negative instant
+`u - 2^32` from the 32-bit block (`v1 = true`: `readInt32` returns `int32_t`, and that is what is converted to the
+`int64_t` element of `trans`) and `u - 2^64` from the 64-bit block, `u` being the bytes as an unsigned big-endian
+number. -/
+theorem tzfile_sign_extends (v1 : Bool) (pre bs rest : List UInt8) (hl : bs.length = if v1 then 4 else 8)
+    (htop : 128 ≤ (bs.headD 0).toNat) :
+    TzFile.readTimes v1 1 ⟨pre ++ (bs ++ rest), pre.length⟩
+      = .ok ([(Buffer.decodeBE bs : Int) - 2 ^ (8 * if v1 then 4 else 8)], ⟨(pre ++ bs) ++ rest, (pre ++ bs).length⟩) ∧
+    (Buffer.decodeBE bs : Int) - 2 ^ (8 * if v1 then 4 else 8) < 0 :=
+  TzFile.readTime_sign_extends v1 pre bs rest hl htop
+
+/-- ... and the encoder produces such bytes for every negative time, so by `tzfile_roundtrip` negative transition
+times come back negative: the first byte of the two's complement form of a negative value has the top bit set. -/
+theorem tzfile_negative_times (n : Nat) (hn : 0 < n) (t : Int) (hlo : -(2 ^ (8 * n - 1) : Int) ≤ t) (hneg : t < 0) :
+    128 ≤ ((Buffer.intBytes n t).headD 0).toNat :=
+  TzFile.intBytes_top n hn t hlo hneg
+
+/-- **the reader never reads past its input and never depends on what follows**: whatever the bytes, if the reader
+accepts them then everything it needed (`consumed`: up to the designations of the block it took) lies inside the
+input, and appending any bytes yields the same table (only the footer text grows). -/
+theorem tzfile_reads_inside (d : List UInt8) (l : TzFile.Loaded) (h : TzFile.parse d = .ok l) :
+    l.consumed ≤ d.length ∧ ∀ e, ∃ tz, TzFile.parse (d ++ e) = .ok { l with tzstring := tz } :=
+  TzFile.parse_good d l h
+
+/-- **truncation**: every proper prefix of the encoding of a well-formed description is either refused - exactly
+when it cuts into the part the reader needs - or yields the very same table (the cut fell into the indicator bytes,
+the footer or, for a file read through its first block, the second block). -/
+theorem tzfile_total (z : TzFile.ZoneDesc) (h : z.WF) (n : Nat) (_hn : n < (TzFile.serialize z).length) :
+    (n < z.needed.length ∧ ∃ e, TzFile.parse ((TzFile.serialize z).take n) = .error e) ∨
+    (z.needed.length ≤ n ∧ ∃ tz, TzFile.parse ((TzFile.serialize z).take n) = .ok
+      { data := z.selected.table, abbreviation := z.selected.chars, tzstring := tz, consumed := z.needed.length }) := by
+  by_cases hc : n < z.needed.length
+  · exact Or.inl ⟨hc, TzFile.parse_truncated_error z h n hc⟩
+  · exact Or.inr ⟨by omega, _, TzFile.parse_truncated_ok z h n (by omega)⟩
+
+/-- **what every loaded table satisfies** (any bytes, well-formed or not): each transition carries the shifted epoch
+`utctime + utcOffset of its type` - the first clause of `Zone.WF`.  Hence for a loaded table `WF` is the decidable gap
+rule alone, and `zone_lookup_spec` / `zone_roundtrip` / `zone_skipped` apply to `loadZone bytes`. -/
+theorem tzfile_table_wf (bytes : List UInt8) (d : Data) (h : TzFile.loadZone bytes = some d) :
+    (∀ i, i < d.n → (d.tr i).localtime = d.u i + d.o i) ∧
+    ((∀ i, i < d.n - 1 → d.chg i + d.chg (i + 1) < d.u (i + 1) - d.u i) → WF d) := by
+  unfold TzFile.loadZone at h
+  split at h
+  · rename_i l hl
+    simp only [Option.some.injEq] at h
+    subst h
+    have := TzFile.zoneFile_shifted _ l hl
+    exact ⟨this, fun g => ⟨this, g⟩⟩
+  · exact absurd h (by simp)
+
+/-- non-vacuity: a version-2 file with three transitions in the 64-bit block - one before 1901 (negative beyond 32
+bits), one negative 32-bit, one after 2038 - and two in the 32-bit block; the description is well-formed, its encoding
+has 175 bytes, and the reader (evaluated) returns the three instants with their types. -/
+def sampleZone : TzFile.ZoneDesc :=
+  { version := 50
+    v1 := { times := [-1000000000, 1000000000], idxs := [1, 0], types := [⟨0, false, 0⟩, ⟨3600, true, 4⟩],
+            chars := [71, 77, 84, 0, 66, 83, 84, 0], isstd := [], isut := [] }
+    v2 := some ({ times := [-3000000000, -1000000000, 5000000000], idxs := [1, 0, 1],
+                  types := [⟨0, false, 0⟩, ⟨3600, true, 4⟩], chars := [71, 77, 84, 0, 66, 83, 84, 0],
+                  isstd := [0, 1], isut := [0, 0] }, [10, 71, 77, 84, 48, 10]) }
+
+theorem sampleZone_wf : sampleZone.WF := by
+  refine ⟨⟨?_, rfl, ?_, ?_, by decide, by decide, by decide, by decide, by decide, by decide⟩,
+    fun b ft hb => ?_, fun _ => rfl⟩
+  · decide
+  · decide
+  · decide
+  · simp only [sampleZone, Option.some.injEq, Prod.mk.injEq] at hb
+    obtain ⟨rfl, rfl⟩ := hb
+    exact ⟨by decide, rfl, by decide, by decide, by decide, by decide, by decide, by decide, by decide, by decide⟩
+
+theorem sampleZone_parsed :
+    (TzFile.serialize sampleZone).length = 175 ∧
+    ((TzFile.parse (TzFile.serialize sampleZone)).toOption.map fun l =>
+        (l.data.transitions.toList.map fun t => (t.utctime, t.localtime, t.localtimeIdx), l.tzstring))
+      = some ([(-3000000000, -2999996400, 1), (-1000000000, -1000000000, 0), (5000000000, 5000003600, 1)],
+              [10, 71, 77, 84, 48, 10]) ∧
+    (TzFile.parse ((TzFile.serialize sampleZone).take 150)).toOption.isNone := by
+  decide +kernel
 
 /-! ## T1, the address functions -/
 
